@@ -220,3 +220,180 @@ Example C20_ex_wrapped :
   escape [SVarExpr] LFunc (EPy "ZeroDivisionError") = EDGE /\
   rooted [STmplFriend; STmplField; SNested; STmplCount] LCountConv = true.
 Proof. vm_compute. repeat split. Qed.
+
+(* ================================================================== round 3: the text of the errors *)
+(* str.format is a partial function of its template: a lone brace, a field without its argument raise.  The
+   code hands user text (table names, nicknames, field / function / variable names, definitions, the wrapped
+   exception's own message) to it only as ARGUMENTS of four constant templates; for every such text the
+   templates format, and give exactly the expected message. *)
+Theorem C20_format_templates_total :
+  forall (name msg : string) (c : ascii) (d : string),
+    py_format T_func [name] [("e", msg)]
+      = Ok ("Cannot evaluate function `" ++ name ++ "`:" ++ nl ++ " " ++ msg)%string /\
+    py_format T_field [name] [("e", msg)]
+      = Ok ("Problem rendering field " ++ name ++ ":" ++ nl ++ " " ++ msg)%string /\
+    py_format T_var [name] [("e", msg)]
+      = Ok ("Cannot evaluate variable `" ++ name ++ "`:" ++ nl ++ " " ++ msg)%string /\
+    py_format T_parse (chars (String c d)) [("e", msg)] = Ok ("Cannot parse value " ++ String c "")%string.
+Proof.
+  intros. split; [apply format_T_func|]. split; [apply format_T_field|].
+  split; [apply format_T_var | apply format_T_parse].
+Qed.
+Print Assumptions C20_format_templates_total.
+
+(* every wrapper, given any text and any exception, raises a DataGenError (or passes, as the frame model
+   says) - building the message never fails.  (A compile error needs a Jinja delimiter in the definition,
+   so the definition is not empty: the one template that is fed `*definition` always has its argument.) *)
+Theorem C20_wrappers_build_their_messages :
+  forall (f : iframe) (e : exnv),
+    iframe_possible f = true ->
+    exists e', wrap f e = Ok e' /\ x_cls e' = through (erase f) (x_cls e).
+Proof. exact wrap_total. Qed.
+Print Assumptions C20_wrappers_build_their_messages.
+
+(* the run-time theorem again, now over paths that carry all their text: for every table name, nickname,
+   field name, function name, variable name, definition and exception message, any exception raised at any
+   leaf of a path execution can take leaves generate as a DataGenError *)
+Theorem C20_runtime_errors_wrapped_whatever_the_text :
+  forall (path : list istep) (l : ileaf) (e : exnv),
+    ileaf_possible l = true ->
+    rooted (map erase_step path) (erase_leaf l) = true ->
+    x_cls (escape_v path l e) = EDGE.
+Proof.
+  intros p l e Hl Hr. rewrite escape_v_class by exact Hl. now apply escape_rooted.
+Qed.
+Print Assumptions C20_runtime_errors_wrapped_whatever_the_text.
+
+(* the text-carrying model refines the frame model of the earlier theorems *)
+Theorem C20_text_model_refines_frames :
+  forall path l e, ileaf_possible l = true ->
+    x_cls (escape_v path l e) = escape (map erase_step path) (erase_leaf l) (x_cls e).
+Proof. exact escape_v_class. Qed.
+Print Assumptions C20_text_model_refines_frames.
+
+(* "where the fault is attributable, the file and line": what was not a DataGenError at the leaf knows
+   its line when it leaves *)
+Theorem C20_runtime_errors_located :
+  forall path l e n, ileaf_possible l = true -> x_cls e = EPy n ->
+    is_dge (escape_v path l e) = true -> x_line (escape_v path l e) = true.
+Proof. exact escape_v_located. Qed.
+Print Assumptions C20_runtime_errors_located.
+
+(* "carrying a message": the message is not empty when the exception brought one, or when a field, a
+   function call or a definition is on the way (their wrappers always add their own text) ... *)
+Theorem C20_runtime_errors_carry_a_message_partial :
+  forall path l e, ileaf_possible l = true ->
+    nonempty (x_msg e) = true \/ existsb labels (iframes path l) = true ->
+    nonempty (x_msg (escape_v path l e)) = true.
+Proof. exact escape_v_message. Qed.
+Print Assumptions C20_runtime_errors_carry_a_message_partial.
+
+(* ... and that is all: a formula in a `var` (or a count) that raises an exception without text - a bare
+   `assert` in a plugin function - is answered with a DataGenError whose message is empty
+   (KNOWN_FINDINGS C20-M1; SimpleValue.render: DataGenValueError(str(e))) *)
+Example C20_refuted_message_always :
+  let r := escape_v [ISVarExpr "v"] ILEval (mkX (EPy "AssertionError") "" false) in
+  x_cls r = EDGE /\ x_msg r = "" /\
+  rooted (map erase_step [ISVarExpr "v"]) (erase_leaf ILEval) = true.
+Proof. vm_compute. repeat split. Qed.
+
+(* the model tells the ways of building a message apart: ObjectTemplate.exception_handling rewritten to
+   go through fix_exception with the message as the template fails for a nickname with a brace, the
+   exception that then leaves generate is the KeyError / ValueError of str.format *)
+Example C20_ex_user_text_as_template_crashes :
+  wrap (IFTemplateEH (cannot_generate "Account" "acct{main}")) (mkX (EPy "AttributeError") "x" false)
+    = Ok (dge_at "Cannot generate Account (acct{main}) : x") /\
+  wrap_unified_template_eh (cannot_generate "Account" "acct{main}") (mkX (EPy "AttributeError") "x" false)
+    = Err (Internal "KeyError") /\
+  wrap_unified_template_eh (cannot_generate "Set}" "") (mkX (EPy "AttributeError") "x" false)
+    = Err (Internal "ValueError") /\
+  wrap_unified_template_eh (cannot_generate "Row{}" "") (mkX (EPy "AttributeError") "x" false)
+    = Err (Internal "IndexError").
+Proof. vm_compute. repeat split. Qed.
+
+Example C20_ex_format :
+  py_format "a{}b{e}c{{}}" ["X"] [("e", "E")] = Ok "aXbEc{}" /\
+  py_format "{0}{}" ["X"] [] = Err (Internal "ValueError") /\
+  py_format "{1}" ["X"] [] = Err (Internal "IndexError") /\
+  py_format "{x}" [] [] = Err (Internal "KeyError") /\
+  py_format "}" [] [] = Err (Internal "ValueError") /\
+  py_format "{x!r}" [] [] = Err Unsupported.
+Proof. vm_compute. repeat split. Qed.
+
+Example C20_ex_wrapped_with_text :
+  escape_v [ISTmplFriend "P{" "}"; ISTmplCount "T{0}" "n%s" "{x}"] ILLookup (mkX (EPy "AttributeError") "{e}" false)
+  = dge_at "Cannot generate T{0} (n%s) : {e}".
+Proof. vm_compute. reflexivity. Qed.
+
+(* ================================================================== round 3: documents with anchors *)
+(* check_no_recursive_aliases walks the graph PyYAML built.  With its memo it expands every container
+   once: the list of finished containers has no repetition, and the function is invoked at most once per
+   member slot of the document (plus once for the root) - linear in the size of the text, however many
+   ways lead to a shared part. *)
+Theorem C20_alias_walk_visits_each_node_once :
+  forall (h : heap) (root : nat) (st : astate),
+    alias_check h root = Ok st ->
+    NoDup (a_fin st) /\ (a_calls st <= 1 + edges h)%nat.
+Proof. exact alias_walk_linear. Qed.
+Print Assumptions C20_alias_walk_visits_each_node_once.
+
+(* it needs no more stack than the document has containers (never out of fuel) *)
+Theorem C20_alias_walk_terminates :
+  forall h root, alias_check h root <> Err OutOfFuel.
+Proof. exact alias_walk_terminates. Qed.
+Print Assumptions C20_alias_walk_terminates.
+
+(* what it accepts is a finite tree: following the references from the root comes to an end, so the
+   tree model of the rest of the parser applies *)
+Theorem C20_alias_walk_accepts_only_trees :
+  forall h root st, alias_check h root = Ok st -> exists doc, unfold h (S (length h)) root = Ok doc.
+Proof. exact alias_walk_accepts_trees. Qed.
+Print Assumptions C20_alias_walk_accepts_only_trees.
+
+(* what it rejects does contain itself *)
+Theorem C20_alias_walk_rejects_only_cycles :
+  forall h root, alias_check h root = Err (DGE "") -> exists x, path h x x.
+Proof. exact alias_walk_rejects_cycles. Qed.
+Print Assumptions C20_alias_walk_rejects_only_cycles.
+
+(* the static theorems, for the document as the loader delivers it *)
+Theorem C20_validate_graph_never_crashes :
+  forall E ffuel mfuel h root site,
+    validate_graph E ffuel mfuel h root = Err (Internal site) -> In site (env_crashes E).
+Proof. exact validate_graph_never_crashes. Qed.
+Print Assumptions C20_validate_graph_never_crashes.
+
+Theorem C20_validate_graph_terminates :
+  forall E ffuel mfuel h root,
+    (S (length (fenv E)) < ffuel)%nat ->
+    (forall doc c, unfold h (S (length h)) root = Ok doc ->
+                   load_file E ffuel [] "" doc ctx0 = Ok c -> (length (c_macros c) < mfuel)%nat) ->
+    validate_graph E ffuel mfuel h root <> Err OutOfFuel.
+Proof. exact validate_graph_terminates. Qed.
+Print Assumptions C20_validate_graph_terminates.
+
+(* l0: &l0 []   l1: &l1 [*l0, *l0]   ...   ln: &ln [*l(n-1), *l(n-1)] *)
+Definition ladder (n : nat) : heap := HSeq [] :: map (fun i => HSeq [i; i]) (seq 0 n).
+
+(* 40 levels: 81 invocations with the memo; without it (`finished = finished or set()`: an empty memo is
+   replaced by a private one, nothing is ever remembered) the count doubles with every level *)
+Example C20_ex_alias_ladder :
+  (match alias_check (ladder 40) 40 with Ok st => a_calls st | Err _ => O end) = 81%nat /\
+  (match acheck_nomemo (ladder 12) 20 [] 12 0 with Ok k => Z.of_nat k | Err _ => 0%Z end) = 8191%Z /\
+  (1 + edges (ladder 40) = 81)%nat.
+Proof. vm_compute. repeat split. Qed.
+
+Example C20_ex_alias_cycle_rejected :
+  alias_check [HSeq [1%nat]; HMap [(YStr "x", 0%nat)]] 0 = Err (DGE "") /\
+  validate_graph E0 3 3 [HSeq [1%nat]; HMap [(YStr "object", 2%nat); (YStr "fields", 1%nat)]; HLeaf (YStr "A")] 0
+    = Err (DGE "").
+Proof. vm_compute. split; reflexivity. Qed.
+
+(* a valid recipe whose option default is a shared structure *)
+Example C20_ex_graph_valid :
+  validate_graph E0 3 3
+    [HSeq [1%nat; 6%nat];
+     HMap [(YStr "option", 2%nat); (YStr "default", 5%nat)];
+     HLeaf (YStr "o"); HSeq [7%nat]; HSeq [3%nat; 3%nat]; HSeq [4%nat; 4%nat];
+     HMap [(YStr "object", 7%nat)]; HLeaf (YStr "A")] 0 = Ok tt.
+Proof. vm_compute. reflexivity. Qed.
